@@ -47,6 +47,8 @@ func runC06(p *core.Program, r *core.Report) {
 	r.Rule("C06.fifo", "queue mode: tail enqueue, head dequeue, one drain goroutine", 3)
 	r.Rule("C06.license", "each frame hashes the license in effect for that send: options applied to a fresh struct per send; per-send license if non-empty, else the client's", 4)
 	c05Frame(p, r, "C06.license", true)
+	r.Rule("C06.queue", "the queue behind queue mode keeps its contract (C11's put/get/timeout/wake-up/FIFO rules on util/queue.RequestQueue): nothing accepted is dropped, taken twice or left waiting for ever", 8)
+	importQueueRules(p, r, "C06.queue")
 
 	pk := p.Pkg("net/oneway")
 	if pk == nil {
